@@ -24,7 +24,7 @@ def run(ctx):
                         desc='a recognised fixed-width token ends inside the input with the field separator'))
     ctx.assumptions += codec.DECODE_ASSUMPTIONS + ['encode side of data fields (Field<f8String>::print) and data pairs inside repeating groups (FIX42UTEST: LinesOfText 354/355 - decode_group has no length handling) are outside these harnesses',
                                                    'the creator hook receives the value as a NUL-terminated char* (that is the real interface: be->_create._do(const char*, ...))']
-    ctx.solve(jobs=4)
+    ctx.solve(jobs=codec.JOBS)
     ctx.handle_failures(codec.replay, kf)
     announce_known(ctx, kf, codec.replay)
     return ctx.finish()
